@@ -18,7 +18,7 @@ func init() {
 			"the value rule is exactly: unparseable reading => 3; -24 < reading < 24 => 2 (both bounds strict, constants 24 and -24); otherwise uint64(multiplier * reading / divider) with the conversion applied last to a float expression " +
 			"(scale before cast) and no arithmetic after it; the record's timeslot is UnixToTimeslot of the same row's first column and rows whose timestamp does not parse or predates genesis are skipped without producing a record; " +
 			"only parse failures and short rows skip, nothing returns an error or panics after the file was read; calibration: the multiplier is the ParseFloat of the text after exactly one Scan, the divider after exactly two. " +
-			"readings and calibration settings are parsed with bitSize 64 (no rounding to float32). NOT decided: the numeric result of float64->uint64 conversion for negative, NaN, infinite or overflowing values (implementation-defined by the Go specification; two's complement on amd64/arm64 as compiled), truncation semantics of the conversion itself, and encoding/csv's own parsing rules.",
+			"readings and calibration settings are parsed with bitSize 64 (no rounding to float32). A calibration value is installed only under the nil error of the ParseFloat call that produced it; no row is read and discarded outside the row loop. NOT decided: the numeric result of float64->uint64 conversion for negative, NaN, infinite or overflowing values (implementation-defined by the Go specification; two's complement on amd64/arm64 as compiled), truncation semantics of the conversion itself, and encoding/csv's own parsing rules.",
 		Assumptions: append([]string{"encoding/csv, strconv.ParseFloat/ParseInt and bufio.Scanner behave as documented", "float64 -> uint64 conversion of in-range values truncates toward zero (Go specification)"}, baseAssumptions...),
 		Run:         runC16,
 	})
@@ -68,7 +68,20 @@ func energyValueRule(c *an.Ctx, fn *ssa.Function) {
 			}
 			l := innermostLoopOf(fn, call.Block())
 			if l == nil {
-				c.Undecided("PRED", fn, call.Pos(), an.KeyOf(fn, "row-loop"), "the csv Read call is not inside a loop", "shape not recognised")
+				// a row read outside the row loop: if nothing is done with it, that row is lost whatever it contains
+				used := false
+				if refs := call.Referrers(); refs != nil {
+					for _, r := range *refs {
+						if ex, ok := r.(*ssa.Extract); ok && ex.Index == 0 && ex.Referrers() != nil && len(*ex.Referrers()) > 0 {
+							used = true
+						}
+					}
+				}
+				if !used {
+					c.Violated("PRED", fn, call.Pos(), an.KeyOf(fn, "row-consumed-unprocessed"), "a row of the energy file is read and discarded outside the row loop: a well-formed first row (a file without header line) yields no record", "the record result of this Read call is never used")
+				} else {
+					c.Undecided("PRED", fn, call.Pos(), an.KeyOf(fn, "row-loop"), "the csv Read call is not inside a loop", "shape not recognised")
+				}
 				continue
 			}
 			rerr := fi.FieldlessExtract(call, 1)
@@ -381,7 +394,23 @@ func calibrationRule(c *an.Ctx, fn *ssa.Function) {
 			}
 			c.Check(okShape && nScans == w, "PRED", fn, st.Pos(), an.KeyOf(fn, "calibration:"+fieldNameOf(fa)),
 				fieldNameOf(fa)+" is the ParseFloat of the scanner text after exactly "+itoaP(w)+" Scan call(s) (first line multiplier, second line divider)", "value "+short(vt.Key()))
-			// the store is dominated by both parses succeeding
+			// the setting is installed only if its own parse succeeded (a parse error that is overwritten before it is
+			// tested lets "whoops" through as 0 and "1e999" as +Inf)
+			okErr := false
+			if vt.K == an.KExt && len(vt.A) == 1 {
+				for _, f := range fi.FactsAt(st) {
+					if f.Neg || f.T.K != an.KBin || f.T.S != "==" {
+						continue
+					}
+					for k := 0; k < 2; k++ {
+						a, b := f.T.A[k], f.T.A[1-k]
+						if isConstTerm(b, "nil") && a.K == an.KExt && a.S == "1" && a.A[0].Key() == vt.A[0].Key() {
+							okErr = true
+						}
+					}
+				}
+			}
+			c.Check(okErr, "PRED", fn, st.Pos(), an.KeyOf(fn, "calibration-parsed-ok:"+fieldNameOf(fa)), fieldNameOf(fa)+" is installed only under the nil error of the very ParseFloat call that produced it (a malformed setting is an error, not a silent 0 or Inf)", "facts "+factList(fi.FactsAt(st)))
 		}
 	}
 	c.Count("PRED-calibration", n)
